@@ -112,7 +112,7 @@ func c03Setup() (svc *protogen.Service, m *protogen.Method, hasBase bool, base s
 
 // VerifC03Routes: the five generators agree on verb and path template of an RPC.
 func VerifC03Routes() {
-	svc, m, hasBase, base, hasCfg, cfgPath, _ := c03Setup()
+	svc, m, _, _, hasCfg, cfgPath, _ := c03Setup()
 
 	g := &Generator{}
 	sPath := g.getMethodPath(m, g.getServiceBasePath(svc), "userpb")
@@ -142,13 +142,6 @@ func VerifC03Routes() {
 		verif.Expect("KF-C03-default-path-go-server", sPath == cPath)
 		verif.Expect("KF-C03-default-path-openapi", oPath == cPath)
 		verif.Reach("C03/default-path-region")
-		return
-	}
-	if hasBase && base != "" && base[0] != '/' {
-		// known finding: Go server concatenates a base path without leading slash verbatim
-		verif.Expect("KF-C03-base-without-leading-slash", sPath == cPath)
-		verif.Assert("C03/path/go-client=openapi/base-no-slash", oPath == cPath)
-		verif.Reach("C03/base-no-slash-region")
 		return
 	}
 	verif.Assert("C03/path/go-server=go-client", sPath == cPath)
